@@ -167,7 +167,7 @@ CLAIMS = {
         "FINAL values has its head dominated, i.e. every increase was propagated (run_lattice_closed) - and for programs using lattice values monotonically it "
         "is below every key-unique closed database: the least fixed point (run_lattice_least); relation rows stay sets (run_lattice_rel_rows_set). Tied by "
         "compiled generated programs over i64 / Dual<i64> / Set<i64> / Option<i64> lattices (seeded, recursive through the lattice, saturating increments) vs "
-        "the model (rows with multiplicities) and a Kleene-iteration oracle. Props/C03ND.lean: the lattice engine as a relation (any processing order; every micro-step reads the row values of any state the pass has already been through - snapshot, live, in between; complete on the rows unchanged during the pass): every such execution reaches the least fixed point (ndl_least_fixed_point), the deterministic model is one (deterministic_is_ndl); tie B has BoundedSet lattice columns too. Props/C03Phys.lean: the generated code with lattices over its physical indices (key index, set-valued row-number indices, in-place join, re-queue into every new index) reaches the least fixed point (runPhysLat_spec, forward simulation onto the relation), tied by `eng runpl` on every second input.",
+        "the model (rows with multiplicities) and a Kleene-iteration oracle. Props/C03ND.lean: the lattice engine as a relation (any processing order; every micro-step reads the row values of any state the pass has already been through - snapshot, live, in between; complete on the rows unchanged during the pass): every such execution reaches the least fixed point (ndl_least_fixed_point), the deterministic model is one (deterministic_is_ndl); tie B has BoundedSet lattice columns too. Props/C03Phys.lean: the generated code with lattices over its physical indices (key index, set-valued row-number indices, in-place join, re-queue into every new index) reaches the least fixed point (runPhysLat_spec, forward simulation onto the relation), tied by `eng runpl` on every second input; re-use histories (run(); rows removed from the lattice's vector; run()) on both sides.",
    design_ref="DESIGN.md §8 C03, §13.4", note=ENGINE_NOTE + " The executable model reads lattice rows as a snapshot at rule-variant start; the real code reads live values: both are executions of the nondeterministic lattice engine of Props/C03ND.lean, which is proved to reach the least fixed point; parallel lattices: C02."),
  "C04": dict(
    engine="tie-B-engine",
@@ -213,7 +213,7 @@ CLAIMS = {
         "the 'some body relation is empty' guard and the len_estimate choice between the two copies of a reorderable simple join - computes exactly the least model "
         "(runPhys_eq_leastModel; forward simulation onto the nondeterministic engine of Proofs/NDEngine.lean, which allows ANY enumeration of an iteration's head rows). "
         "Its hypotheses (desugared, well-scoped rules; planOk) are decidable and evaluated by the driver on every generated program; every tie-B case is also run "
-        "through this model (`eng runp`).",
+        "through this model (`eng runp`); re-use histories (run(); rows removed from relation vectors; run() again) are replayed on both sides.",
    design_ref="DESIGN.md §8 C01, §3.1, §13.4", note=ENGINE_NOTE),
  "C05": dict(
    engine="tie-B-engine",
@@ -277,7 +277,8 @@ CLAIMS = {
    text="Lean 4 theorems (kernel-checked, all lists / all honest size hints / all rational p in [0,100]) about a hand-written model of "
         "ascent/src/aggregators.rs: min/max are members and bounds, sum = List.sum, count = length for every honest size_hint, mean = "
         "exact fraction, not, percentile total with the prescribed rank and permutation-invariant; the model is tied to the code on every "
-        "run by running model and real aggregators on the same op file (exhaustive small lists + PRNG lists) and diffing.",
+        "run by running model and real aggregators on the same op file (exhaustive small lists + PRNG lists, columns up to 20 001 rows, one "
+        "aggregator value applied to several groups in turn) and diffing.",
    design_ref="DESIGN.md §8 C17",
    note="Lean kernel; axioms propext/Classical.choice/Quot.sound; model hand-written, tied by correspondence (harness/ds, Lean driver, "
         "Python oracle); f64 rounding in mean/percentile and integer overflow in sum are outside the model."),
